@@ -114,7 +114,9 @@ def check_product(case, rec):
     if ip.have_Fq:
         pars["structure_factor_mode"] = 1 if beta else 0
     er_par = [p for p in m.info.parameters.call_parameters if p.name == "radius_effective"]
-    er_pd = case["er_pd"] if ((mode == 0 or not nmodes) and er_par and er_par[0].polydisperse) else None
+    # dispersity on the user's radius_effective is legal in every mode; with mode > 0 the radius comes
+    # from P and is monodisperse (documented in product.py), so the distribution must have no effect
+    er_pd = case["er_pd"] if (er_par and er_par[0].polydisperse) else None
     if er_pd:
         pars.update(er_pd)
     rec.cls("P:" + P, "S:" + S, "dim:" + dim, "mode:%d" % mode, "beta" if beta else "no-beta",
@@ -124,7 +126,7 @@ def check_product(case, rec):
     if any(k_.endswith("_M0") for k_ in case["ppars"]):
         rec.cls("magnetic-P")
     if er_pd:
-        rec.cls("mode0-dispersed-radius")
+        rec.cls("mode0-dispersed-radius" if (mode == 0 or not nmodes) else "dispersed-radius-ignored-by-mode")
     tag = "%s:%s:%s" % (dim, "beta" if beta else "plain", "vfP" if vf_in_p else "vfS")
     try:
         I = np.asarray(direct_model.call_kernel(k, dict(pars), cutoff=0.0), float)
@@ -149,7 +151,7 @@ def check_product(case, rec):
     # ---- S alone
     sp = dict(case["spars"])
     sp.update(radius_effective=Re, volfraction=vf * ratio, scale=1.0, background=0.0)
-    if er_pd:
+    if er_pd and (mode == 0 or not nmodes):
         sp.update(er_pd)
     Sq = np.asarray(direct_model.call_kernel(ks, sp, cutoff=0.0), float)
     PS = (F2 + F ** 2 * (Sq - 1)) if beta else F2 * Sq
